@@ -1,5 +1,5 @@
-(* C27 - the theorems about [spec_run] (the handlers the property demands, written in the lock
-   language) and the refutations for [impl_run] (today's legacy handlers). *)
+(* C27 - the theorems about [spec_run] = [impl_run] (the handlers as they are now, written in the
+   lock language) and the refutations for [old_run] (the legacy handlers BEFORE fix commit c3c83c0). *)
 From Coq Require Import List Arith NArith Bool Lia ZifyN ZifyNat ZifyBool.
 From Verif Require Import Model.ResourcePack Proofs.C27_Lang Proofs.C27_Legacy Proofs.C27_Modern.
 Import ListNotations.
@@ -7,6 +7,10 @@ Open Scope N_scope.
 
 Definition is_legacy (proto : N) : bool :=
   match family_of proto with Modern => false | _ => true end.
+
+(* today's code is what the property demands *)
+Lemma impl_is_spec_proof proto hb h : impl_run proto hb h = spec_run proto hb h.
+Proof. reflexivity. Qed.
 
 (* spec_run is the pure run *)
 Lemma spec_run_legacy proto hb h :
@@ -152,38 +156,38 @@ Proof.
     apply per_id_proof. unfold is_legacy. rewrite F. reflexivity.
 Qed.
 
-(* ---------- refutations for today's legacy handlers ---------- *)
+(* ---------- refutations for the PRE-FIX legacy handlers (before c3c83c0) ---------- *)
 
 (* every first QueueResourcePack on a client below 1.20.3 deadlocks on its own lock *)
-Lemma impl_first_queue_stuck proto hb id hash f be :
-  is_legacy proto = true -> impl_run proto hb [Queue id hash f be] = [mkStep [] RStuck [] []].
+Lemma old_first_queue_stuck proto hb id hash f be :
+  is_legacy proto = true -> old_run proto hb [Queue id hash f be] = [mkStep [] RStuck [] []].
 Proof.
-  unfold is_legacy, impl_run, run_handler. destruct (family_of proto); intros L; try discriminate L; reflexivity.
+  unfold is_legacy, old_run, run_handler. destruct (family_of proto); intros L; try discriminate L; reflexivity.
 Qed.
 
 (* a response while nothing is queued panics *)
-Lemma impl_response_panics proto hb b :
-  is_legacy proto = true -> impl_run proto hb [Response b] = [mkStep [] RPanic [] []].
+Lemma old_response_panics proto hb b :
+  is_legacy proto = true -> old_run proto hb [Response b] = [mkStep [] RPanic [] []].
 Proof.
-  unfold is_legacy, impl_run, run_handler. destruct (family_of proto); intros L; try discriminate L; reflexivity.
+  unfold is_legacy, old_run, run_handler. destruct (family_of proto); intros L; try discriminate L; reflexivity.
 Qed.
 
 Lemma never_stuck_refuted_proof :
-  exists proto hb h, In RStuck (map s_ret (impl_run proto hb h)).
+  exists proto hb h, In RStuck (map s_ret (old_run proto hb h)).
 Proof. exists 754, true, [Queue 1 0 false false]. vm_compute. left. reflexivity. Qed.
 
 (* with the locking repaired but prevResourceResponse still a bool that starts false, the first
    pack is declined on the client's behalf although the client never declined anything *)
 Lemma auto_decline_refuted_proof :
   exists proto hb h k x p,
-    nth_error (run_handler RepairedNesting (mkCfg false true) proto hb h) k = Some x /\
+    nth_error (run_handler CurrentNesting (mkCfg false true) proto hb h) k = Some x /\
     In (GAuto p) (s_events x) /\ last_decision None (firstn (S k) h) <> Some false.
 Proof.
   exists 754, true, [Queue 1 0 false true], 0%nat.
   eexists. eexists. split; [vm_compute; reflexivity|]. split; [left; reflexivity|]. vm_compute. discriminate.
 Qed.
 
-(* off the triggers (no queue, no response) today's handlers and the repaired ones agree *)
+(* off the triggers (no queue, no response) the pre-fix handlers and today's agree *)
 Definition quiet (o : op) : bool := match o with Clear | Remove _ => true | _ => false end.
 
 Lemma clear_exec n e c l s :
@@ -199,8 +203,8 @@ Proof. destruct n; reflexivity. Qed.
 
 Lemma quiet_agree e c1 c2 : forall h l s1 s2,
   forallb quiet h = true -> l_applied s1 = l_applied s2 -> l_pending s1 = l_pending s2 ->
-  run_lang (l_exec TodayNesting e c1) l_papp l_ppend l s1 h =
-  run_lang (l_exec RepairedNesting e c2) l_papp l_ppend l s2 h.
+  run_lang (l_exec OldNesting e c1) l_papp l_ppend l s1 h =
+  run_lang (l_exec CurrentNesting e c2) l_papp l_ppend l s2 h.
 Proof.
   induction h as [|o r IH]; intros l s1 s2 Q A P; [reflexivity|].
   cbn [forallb] in Q. apply andb_true_iff in Q. destruct Q as [Q1 Q2].
@@ -211,17 +215,17 @@ Proof.
     unfold l_papp, l_ppend. cbn [l_applied l_pending]. rewrite P. f_equal. apply IH; [exact Q2|reflexivity|reflexivity].
 Qed.
 
-Lemma impl_eq_spec_off_trigger_proof proto hb h :
-  forallb quiet h = true -> impl_run proto hb h = spec_run proto hb h.
+Lemma old_eq_spec_off_trigger_proof proto hb h :
+  forallb quiet h = true -> old_run proto hb h = spec_run proto hb h.
 Proof.
-  intros Q. unfold impl_run, spec_run, run_handler, run_legacy.
+  intros Q. unfold old_run, spec_run, run_handler, run_legacy.
   destruct (family_of proto); try reflexivity; apply quiet_agree; try assumption; reflexivity.
 Qed.
 
-Lemma impl_eq_spec_modern_proof proto hb h :
-  is_legacy proto = false -> impl_run proto hb h = spec_run proto hb h.
+Lemma old_eq_spec_modern_proof proto hb h :
+  is_legacy proto = false -> old_run proto hb h = spec_run proto hb h.
 Proof.
-  unfold is_legacy, impl_run, spec_run, run_handler. destruct (family_of proto); intros L; try discriminate L. reflexivity.
+  unfold is_legacy, old_run, spec_run, run_handler. destruct (family_of proto); intros L; try discriminate L. reflexivity.
 Qed.
 
 (* ---------- non-vacuity ---------- *)
